@@ -147,7 +147,7 @@ pub fn fuzz_decode(ctx: &Ctx, o: &Map<String, J>) -> Result<J, OpErr> {
     let names: HashMap<Name, &Schema> = rs.get_names().clone();
     let reader = GenericDatumReader::builder(schema).build()?;
     let writer = GenericDatumWriter::builder(schema).validate(false).build()?;
-    let cpu_budget_ns: u64 = o.get("cpu_budget_ms").and_then(|x| x.as_u64()).unwrap_or(5000) * 1_000_000;
+    let cpu_budget_ns: u64 = o.get("cpu_budget_ms").and_then(|x| x.as_u64()).unwrap_or(30_000) * 1_000_000;
 
     let mut agg = Agg::new();
     anyvalue::set_discard(true);
@@ -343,8 +343,30 @@ pub fn fuzz_decode(ctx: &Ctx, o: &Map<String, J>) -> Result<J, OpErr> {
         // the valid encoding itself must decode (sanity) ...
         run_one(v, false, "valid", &mut agg);
         // ... every strict prefix must not
-        for c in 0..v.len() {
-            run_one(&v[..c], true, "prefix", &mut agg);
+        if v.len() <= 4096 {
+            for c in 0..v.len() {
+                run_one(&v[..c], true, "prefix", &mut agg);
+            }
+        } else {
+            // large datum: cuts near the start, near the end and around every power of two (buffer / chunk sizes)
+            let mut cuts: Vec<usize> = (0..16).chain(v.len() - 16..v.len()).collect();
+            let mut p = 256usize;
+            while p < v.len() + 8 {
+                for d in [p.wrapping_sub(9), p - 2, p - 1, p, p + 1, p + 2, p + 3, p + 4, p + 5, p + 8] {
+                    if d < v.len() {
+                        cuts.push(d);
+                    }
+                }
+                p *= 2;
+            }
+            for k in 1..8 {
+                cuts.push(v.len() * k / 8);
+            }
+            cuts.sort_unstable();
+            cuts.dedup();
+            for c in cuts {
+                run_one(&v[..c], true, "prefix", &mut agg);
+            }
         }
         let max_off = if heavy { v.len().min(24) } else { v.len().min(200) };
         for i in 0..max_off {
@@ -462,7 +484,7 @@ pub fn fuzz_container(o: &Map<String, J>) -> Result<J, OpErr> {
         codec_workset: 16 << 20,
     };
     let heavy = o.get("heavy").and_then(|x| x.as_bool()).unwrap_or(false);
-    let cpu_budget_ns: u64 = o.get("cpu_budget_ms").and_then(|x| x.as_u64()).unwrap_or(5000) * 1_000_000;
+    let cpu_budget_ns: u64 = o.get("cpu_budget_ms").and_then(|x| x.as_u64()).unwrap_or(30_000) * 1_000_000;
     let mutate = o.get("mutate").and_then(|x| x.as_bool()).unwrap_or(true);
     let mut agg = Agg::new();
     let mut stats = (0usize, 0u64);
@@ -525,7 +547,7 @@ pub fn fuzz_codec(o: &Map<String, J>) -> Result<J, OpErr> {
         l: o.get("limit").and_then(|x| x.as_u64()).ok_or("limit")? as usize,
         codec_workset: 16 << 20,
     };
-    let cpu_budget_ns: u64 = o.get("cpu_budget_ms").and_then(|x| x.as_u64()).unwrap_or(5000) * 1_000_000;
+    let cpu_budget_ns: u64 = o.get("cpu_budget_ms").and_then(|x| x.as_u64()).unwrap_or(30_000) * 1_000_000;
     let codec = crate::exec::codec_from(o.get("codec"))?;
     let cname = o.get("codec").map(|c| c.get("name").and_then(|x| x.as_str()).unwrap_or_else(|| c.as_str().unwrap_or("null")).to_string()).unwrap_or_default();
     let mut rng = Rng(o.get("seed").and_then(|x| x.as_u64()).unwrap_or(1) | 1);
